@@ -37,6 +37,17 @@
 //!   cutcheck <seed> <level> => ok (oracle only, see `cut_check`: crashes INSIDE the freezer's file
 //!                              writes of the pass that followed `cutsnap`, at file granularity;
 //!                              level 0: 6 prioritised cut states per pass, 2: 16, 1: all of them)
+//!   cutcont <j> <state> <limit> => <freezer.number after the re-open> <after the recovery pass> <=|!>
+//!                              (emitted by `cutcheck`, one line per crash state, compared with the
+//!                              combined model: Model/FreezeCont.lean `cutAt` rebuilds the state on the
+//!                              model's own files; <state>: D data written / index entry not, E rolled
+//!                              over / new head empty, N nothing written, P partial data, I<t> t of 12
+//!                              index bytes, X0 / Xh / Xm index entry on disk with none / half of the
+//!                              data / the file missing, W0 / Wh the item BEFORE it lost all / half of
+//!                              its data as well (power loss over a rollover), C complete; <limit>: the
+//!                              data-file limit of the recovery pass — same (the case's), exact (the next
+//!                              item exactly fits into the re-opened head file), two (the next two do);
+//!                              `=`: every accessor answered every main-chain block as before the pass)
 //!
 //!   freeze bare       => the same pass, no accessor evaluated before OR after it (the store caches hold
 //!                        exactly what `prime` read since the last restart)
@@ -268,6 +279,8 @@ struct C10<'a> {
     /// `cutsnap`: the state before a pass (directory copy, cold answers, freezer.number, number of
     /// blocks delivered so far)
     snap: Option<CutSnap>,
+    /// `cutcont` lines (op, answer) of the crash states of the last `cutcheck`
+    cutlines: Vec<(String, String)>,
 }
 
 struct CutSnap {
@@ -582,9 +595,20 @@ impl C10<'_> {
             "cutcheck" => {
                 let seed: u64 = t.get(1).map(|x| x.parse().expect("cutcheck <seed> <full>")).unwrap_or(0);
                 let level: u64 = t.get(2).map(|x| x.parse().expect("cutcheck <seed> <level>")).unwrap_or(0);
+                self.cutlines.clear();
                 self.cut_check(seed, level);
                 self.ex.out.op(line, "ok");
+                // one model-compared line per crash state: `cutcont <item in flight> <state> <limit of
+                // the recovery>` => `<freezer.number after the re-open> <after the recovery pass> <=|!>`
+                // (`=`: every accessor answered every main-chain block as before the pass after the
+                // re-open, after the recovery pass, after the rest of the history and one more restart)
+                for (op, ans) in std::mem::take(&mut self.cutlines) {
+                    self.ex.out.op(&op, &ans);
+                    self.ex.out.count("cutcont");
+                }
             }
+            // emitted by `cutcheck` itself; a stand-alone line (replay of a recorded case) is not an op
+            "cutcont" => {}
             "prime" => {
                 // `prime <id> <accessors>`: read block <id> through the store caches, one call per letter
                 let id: u64 = t[1].parse().expect("prime <id> <accessors>");
@@ -1169,6 +1193,17 @@ struct Cut {
     /// also continue the case's history on the recovered node (step 4 of `cut_check`)
     cont: bool,
     label: String,
+    /// the state as the model driver can rebuild it on its own files (`cutcont` lines): D data written /
+    /// index entry not, E rolled over / new head empty, P partial data, I<t> data + t index bytes, X0 / Xh /
+    /// Xm index entry on disk with 0 / half of the data / the file missing, N nothing written, C complete,
+    /// W0 / Wh two items lost (see `prev_cut`)
+    kind: String,
+    /// power loss over a rollover: the data file of the PREVIOUS item (the last one of the file the
+    /// repair slips back into) is cut to this length as well — (file id, length)
+    prev_cut: Option<(u32, u64)>,
+    /// a state in which `Freezer::open`'s repair loop drops the entry of the first item of a new data
+    /// file and slips back into the previous file
+    slip_back: bool,
 }
 
 const QUICK_CUTS: usize = 6;
@@ -1185,39 +1220,69 @@ fn enumerate_cuts(idx: &[(u32, u64)], a: u64, b: u64, full: bool, cap: usize, rn
         let len = o - start;
         let base = 12 * j;
         let mut cand: Vec<Cut> = vec![];
-        let mk = |idx_len: u64, data: Option<u64>, label: &str| Cut { j, idx_len, fid: f, data_len: data, new_file, cont: full, label: format!("item {} ({}{} bytes at {}:{}): {}", j, if new_file { "first of a NEW data file, " } else { "" }, len, blk_name(f), start, label) };
+        let mk = |idx_len: u64, data: Option<u64>, kind: &str, label: &str| Cut { j, idx_len, fid: f, data_len: data, new_file, cont: full, kind: kind.to_string(), prev_cut: None, slip_back: new_file && idx_len >= base + 12, label: format!("item {} ({}{} bytes at {}:{}): {}", j, if new_file { "first of a NEW data file, " } else { "" }, len, blk_name(f), start, label) };
         // process crash (write order data -> index)
         let must: Vec<Cut> = if new_file {
             vec![
-                mk(base, Some(len), "data written, index entry not written"),
-                mk(base, Some(0), "rolled over, new head file still empty"),
+                mk(base, Some(len), "D", "data written, index entry not written"),
+                mk(base, Some(0), "E", "rolled over, new head file still empty"),
             ]
         } else {
-            vec![mk(base, Some(start + len), "data written, index entry not written")]
+            vec![mk(base, Some(start + len), "D", "data written, index entry not written")]
         };
         let mids: Vec<u64> = if full { vec![1, len / 2, len.saturating_sub(1)] } else { vec![rng.range(1, len.max(2) - 1)] };
         for p in mids {
             if p > 0 && p < len {
-                cand.push(mk(base, Some(start + p), &format!("{} of {} data bytes written", p, len)));
+                cand.push(mk(base, Some(start + p), "P", &format!("{} of {} data bytes written", p, len)));
             }
         }
         for t in if full { vec![1u64, 6, 11] } else { vec![rng.range(1, 11)] } {
-            cand.push(mk(base + t, Some(start + len), &format!("data written, {} of 12 index bytes written", t)));
+            cand.push(mk(base + t, Some(start + len), &format!("I{}", t), &format!("data written, {} of 12 index bytes written", t)));
         }
         // power loss before sync_all: the index entry reached the disk, the data did not (completely)
         for p in if full { vec![0u64, len / 2] } else { vec![*rng.pick(&[0u64, len / 2])] } {
             if p < len {
                 let d = if new_file && p == 0 && (full || rng.chance(1, 2)) { None } else { Some(start + p) };
-                cand.push(mk(base + 12, d, &format!("index entry on disk, {} of {} data bytes on disk{}", p, len, if d.is_none() { " (file missing)" } else { "" })));
+                cand.push(mk(base + 12, d, if d.is_none() { "Xm" } else if p == 0 { "X0" } else { "Xh" }, &format!("index entry on disk, {} of {} data bytes on disk{}", p, len, if d.is_none() { " (file missing)" } else { "" })));
             }
         }
         if j == a {
-            cand.push(mk(base, if new_file { None } else { Some(start) }, "nothing written yet"));
+            cand.push(mk(base, if new_file { None } else { Some(start) }, "N", "nothing written yet"));
+        }
+        // power loss at a ROLLOVER (round 6): the index entry of the first item of the new data file is
+        // on disk, the new file is missing / empty — `Freezer::open` drops the entry and slips back
+        // into the previous data file, and the next pass appends into that file again (the items that
+        // still fit), then rolls over again.  `slips`: that state alone (the item in flight does not fit
+        // into the old file with the same limit: see the `fit` limits of `cut_check`); `two`: the
+        // previous item (the last one of the old file, appended by the same pass, so not synced
+        // either) lost (part of) its data as well, so the next pass appends an item that DOES fit.
+        let mut slips: Vec<Cut> = vec![];
+        if new_file {
+            slips.push(mk(base + 12, if rng.chance(1, 2) { None } else { Some(0) }, "Xm", "index entry on disk, new data file missing / empty"));
+            if slips[0].data_len.is_some() {
+                slips[0].kind = "X0".into();
+            }
+            if j > a && j >= 2 {
+                let (ppf, ppo) = idx[(j - 2) as usize];
+                let sp = if ppf != pf { 0 } else { ppo };
+                let lp = po - sp;
+                for (p, kind) in [(0u64, "W0"), (lp / 2, "Wh")] {
+                    if full || rng.chance(1, 2) == (p == 0) {
+                        let mut c = mk(base + 12, None, kind, &format!("index entries of items {} and {} on disk, new data file missing, {} of the {} data bytes of item {} on disk ({} cut to {} bytes)", j - 1, j, p, lp, j - 1, blk_name(pf), sp + p));
+                        c.prev_cut = Some((pf, sp + p));
+                        slips.push(c);
+                    }
+                }
+            }
         }
         if full {
             cuts.extend(must);
             cuts.extend(cand);
+            cuts.extend(slips);
         } else {
+            for c in slips {
+                prio.push((0, c));
+            }
             // quick: a sample (below); the states at a rollover whose data file receives a further
             // item afterwards come first — a stale byte left in such a file shifts every later item
             let shared_file = new_file && j + 1 < b && idx[(j + 1) as usize].0 == f;
@@ -1236,7 +1301,7 @@ fn enumerate_cuts(idx: &[(u32, u64)], a: u64, b: u64, full: bool, cap: usize, rn
         for i in order.iter() {
             if prio[*i].0 == 0 {
                 zeros += 1;
-                if zeros > 3 {
+                if zeros > 4 {
                     prio[*i].0 = 2;
                 }
             }
@@ -1253,7 +1318,7 @@ fn enumerate_cuts(idx: &[(u32, u64)], a: u64, b: u64, full: bool, cap: usize, rn
     // the complete freezer of the pass with the rows of before the wipe
     if b > a {
         let (f, o) = idx[(b - 1) as usize];
-        cuts.push(Cut { j: b, idx_len: 12 * b, fid: f, data_len: Some(o), new_file: false, cont: full, label: "all appends complete, nothing wiped".into() });
+        cuts.push(Cut { j: b, idx_len: 12 * b, fid: f, data_len: Some(o), new_file: false, cont: full, label: "all appends complete, nothing wiped".into(), kind: "C".into(), prev_cut: None, slip_back: false });
     }
     cuts
 }
@@ -1278,6 +1343,12 @@ fn materialise_cut(f1: &std::path::Path, dst: &std::path::Path, cut: &Cut) {
             data.truncate(n as usize);
             std::fs::write(dst.join(blk_name(fid)), &data).unwrap();
         }
+    }
+    if let Some((pf, n)) = cut.prev_cut {
+        let mut data = std::fs::read(dst.join(blk_name(pf))).unwrap();
+        assert!(n as usize <= data.len(), "second cut beyond the data file");
+        data.truncate(n as usize);
+        std::fs::write(dst.join(blk_name(pf)), &data).unwrap();
     }
 }
 
@@ -1460,7 +1531,16 @@ impl C10<'_> {
         }
         let cuts = enumerate_cuts(&idx, a, b, full, cap, &mut rng);
         let later: Vec<u64> = self.delivered[snap.n_delivered..].to_vec();
+        let case_fzmax = self.fzmax;
+        // stored size of item n (the same block compresses to the same bytes in every run)
+        let item_len = |n: u64| -> u64 {
+            let (pf, po) = idx[(n - 1) as usize];
+            let (f, o) = idx[n as usize];
+            if f != pf { o } else { o - po }
+        };
         for (ci, cut) in cuts.iter().enumerate() {
+            self.fzmax = case_fzmax;
+            let fails_before = self.ex.out.oracle_fails;
             let d = tmp.join(format!("c{}", ci));
             copy_dir(&snap.dir.join("node"), &d.join("node"));
             materialise_cut(&probe.join("ancient"), &d.join("ancient"), cut);
@@ -1473,6 +1553,7 @@ impl C10<'_> {
             if !self.open_copy(&d, false) {
                 fail(&mut *self.ex.out, &self.deep, "node-does-not-reopen-after-crash", &ctx);
                 let _ = std::fs::remove_dir_all(&d);
+                self.cutlines.push((format!("cutcont {} {} same", cut.j, cut.kind), "open-fails".into()));
                 continue;
             }
             let n0 = self.ex.node.as_ref().unwrap().store().freezer().map(|f| f.number()).unwrap_or(0);
@@ -1497,7 +1578,34 @@ impl C10<'_> {
                     ok = false;
                 }
             }
-            // 3. the next pass continues and ends where the crash-free pass ended
+            // 3. the next pass continues and ends where the crash-free pass ended.  The data-file limit of
+            //    the recovered node (hook `verif_set_limits`, re-applied at its later starts): the case's
+            //    own, or one under which the next item to be frozen FITS into the head file the re-open
+            //    ended in — exactly (`head.bytes + len == max`, the boundary of the rollover test) or
+            //    together with the item after it — so that the recovery pass first appends into the
+            //    (slipped-back) head file and then rolls over.  No limit can change an answer.
+            let mut fit = "same";
+            if n0 >= 1 && n0 < b && n0 as usize <= idx.len() {
+                let hb = if n0 >= 2 { idx[(n0 - 1) as usize].1 } else { 0 };
+                let want = if cut.slip_back { rng.below(4) } else { rng.below(8) };
+                if want == 0 || (want == 1 && cut.prev_cut.is_none()) {
+                    fit = "exact";
+                    self.fzmax = Some(hb + item_len(n0));
+                } else if want == 2 && n0 + 1 < b {
+                    fit = "two";
+                    self.fzmax = Some(hb + item_len(n0) + item_len(n0 + 1));
+                }
+                if fit != "same" {
+                    self.set_limits();
+                    self.ex.out.count("file_cut_recovery_under_a_limit_the_next_item_fits");
+                }
+            }
+            if cut.slip_back {
+                self.ex.out.count(if fit == "same" { "file_cut_slip_back_next_item_as_in_case" } else { "file_cut_slip_back_next_item_fits" });
+            }
+            if cut.prev_cut.is_some() {
+                self.ex.out.count("file_cut_two_items_lost_over_rollover");
+            }
             let (r2, n2) = self.freeze_here();
             if r2 != Some(true) || n2 != b {
                 fail(&mut *self.ex.out, &self.deep, "crash-recovery-diverges", &format!("next pass {:?} ends at freezer.number {} (crash-free: {}); {}", r2, n2, b, ctx));
@@ -1538,6 +1646,7 @@ impl C10<'_> {
                     if !self.open_copy(&d, false) {
                         fail(&mut *self.ex.out, &self.deep, "node-does-not-reopen-after-crash", &format!("second re-open; {}", ctx));
                         let _ = std::fs::remove_dir_all(&d);
+                        self.cutlines.push((format!("cutcont {} {} {}", cut.j, cut.kind, fit), format!("{} {} !", n0, n2)));
                         continue;
                     }
                     match self.eval_caught() {
@@ -1553,7 +1662,11 @@ impl C10<'_> {
             }
             self.close_copy();
             let _ = std::fs::remove_dir_all(&d);
+            // the model-compared line of this crash state (`cutcont`, emitted after the `cutcheck` line)
+            let q = if self.ex.out.oracle_fails == fails_before { "=" } else { "!" };
+            self.cutlines.push((format!("cutcont {} {} {}", cut.j, cut.kind, fit), format!("{} {} {}", n0, n2, q)));
         }
+        self.fzmax = case_fzmax;
         let _ = std::fs::remove_dir_all(&tmp);
         let _ = std::fs::remove_dir_all(&snap.dir);
         self.ex.start_node();
@@ -1833,7 +1946,7 @@ pub fn run(opts: &Opts) {
     {
         let mut ex = Exec::new(&mut out, base.clone());
         ex.ancient = true;
-        let mut c = C10 { ex, baseline: BTreeMap::new(), frozen_seen: 0, warm: false, deep: None, fzmax: None, delivered: vec![], snap: None };
+        let mut c = C10 { ex, baseline: BTreeMap::new(), frozen_seen: 0, warm: false, deep: None, fzmax: None, delivered: vec![], snap: None, cutlines: vec![] };
         if let Some(rp) = &opts.replay {
             for l in read_replay_ops(rp) {
                 if l.starts_with("case ") {
